@@ -165,7 +165,7 @@ Definition sop_of (o : op) : option (sop (K := elt)) :=
   | ORemove s n mx asn => Some (SDel (elt_of s (n, mx, asn)))
   | ODrop s => Some (SDropCache s)
   | OReset s l => Some (SReset s (map (elt_of s) l))
-  | OValidate _ _ _ | OIter => None
+  | OValidate _ _ _ | OValidateOther _ _ _ _ | OIter => None
   end.
 
 Lemma insert_spec : forall n r t x,
@@ -230,12 +230,13 @@ Theorem C12_vrp_table_refines_set : forall (t : rtab) (o : op),
      | None => apply_op o t = t
      end.
 Proof.
-  intros t o W. destruct o as [s n mx asn|s n mx asn|s|s l|n la attrs|]; cbn [apply_op sop_of].
+  intros t o W. destruct o as [s n mx asn|s n mx asn|s|s l|n la attrs|kd n la attrs|]; cbn [apply_op sop_of].
   - split; [apply insert_wf; exact W|]. intro x. cbn [after]. apply insert_spec.
   - split; [apply remove_wf; exact W|]. intro x. cbn [after]. apply remove_spec. exact W.
   - split; [apply drop_wf; exact W|]. intro x. cbn [after]. apply drop_spec. exact W.
   - split; [apply fold_insert_wf, drop_wf; exact W|]. intro x. cbn [after]. unfold reset.
     rewrite fold_insert_spec, drop_spec by exact W. rewrite map_map. cbn [fst snd]. reflexivity.
+  - split; [exact W|reflexivity].
   - split; [exact W|reflexivity].
   - split; [exact W|reflexivity].
 Qed.
@@ -290,7 +291,7 @@ Qed.
 
 Lemma keys_ok_apply : forall o t, wf_tab t -> keys_ok t -> op_ok o -> keys_ok (apply_op o t).
 Proof.
-  intros o t W K OK. destruct o as [s n mx asn|s n mx asn|s|s l|n la attrs|]; cbn [apply_op op_ok] in *.
+  intros o t W K OK. destruct o as [s n mx asn|s n mx asn|s|s l|n la attrs|kd n la attrs|]; cbn [apply_op op_ok] in *.
   - apply keys_ok_insert; assumption.
   - intros f k r H. change (tmem (remove n (mk_roa s mx asn) t) (f, k, r)) in H.
     apply remove_spec in H; [|exact W]. apply (K f k r). apply H.
@@ -302,6 +303,7 @@ Proof.
     revert K0. generalize (drop_source s t) as t0. clear K W.
     induction l as [|[[n mx] asn] l IH]; intros t0 K0; [exact K0|].
     inversion OK as [|? ? H1 H2]; subst. cbn. apply IH; [exact H2|]. apply keys_ok_insert; [exact K0|exact H1].
+  - exact K.
   - exact K.
   - exact K.
 Qed.
@@ -870,4 +872,40 @@ Proof.
   split.
   - exists [mk_roa 0 24 65001]. split; [vm_compute; reflexivity|left; reflexivity].
   - intros [e [H _]]. vm_compute in H. discriminate.
+Qed.
+
+(* ======================================================================= *)
+(* The policy consumer (Condition::Rpki) and non-IP routes                  *)
+
+Lemma vstate_eqb_eq : forall a b, vstate_eqb a b = true <-> a = b.
+Proof. intros [] []; cbn; split; intro H; try reflexivity; try discriminate. Qed.
+
+Lemma state_of_inj : forall a b, state_of a = state_of b -> a = b.
+Proof. intros [] [] H; try reflexivity; discriminate. Qed.
+
+(* "the validation state used by policy": outside C12-3 the condition `rpki expected`
+   holds of a route exactly when RFC 6811 gives it that state, so exactly one of the
+   three conditions holds *)
+Theorem C12_policy_condition_eq_rfc6811_outside_known :
+  forall (ops : list op) (local : N) (n : net) (attrs : list (N * list N))
+         (segs : option (list (N * list N))) (expected : vstate),
+    Forall op_ok ops -> net_ok n -> attrs_decode attrs segs ->
+    let t := run_ops ops rtab_new in
+    ~ Known_C12_3 t n ->
+    exists b, cond_rpki t local n attrs expected = POk b
+      /\ (b = true <-> rfc6811 (vrps_of (sel (n_fam n) t)) (route_of n (origin_spec local segs)) = state_of expected).
+Proof.
+  intros ops local n attrs segs expected F Hn D t NK.
+  destruct (C12_validate_code_eq_rfc6811_outside_known ops local n attrs segs F Hn D NK) as [res [H1 H2]].
+  fold t in H1, H2. unfold cond_rpki. rewrite H1. eexists. split; [reflexivity|].
+  cbn [cond_of]. rewrite vstate_eqb_eq, <- H2. split; [intro E; rewrite E; reflexivity|apply state_of_inj].
+Qed.
+
+(* in the class of C12-3 no condition holds, NotFound included (the refutation witness of
+   validate_code_eq_rfc6811_refuted seen from the policy side) *)
+Theorem C12_policy_condition_known : forall (t : rtab) (local : N) (n : net) (attrs : list (N * list N)) (expected : vstate),
+  Known_C12_3 t n -> cond_rpki t local n attrs expected = POk false.
+Proof.
+  intros t local n attrs expected K. unfold cond_rpki.
+  rewrite (proj2 (C12_validate_none_iff_known t local n attrs) K). reflexivity.
 Qed.
